@@ -33,6 +33,9 @@ pub struct CallSpec {
     pub rerun: bool,
     #[serde(default, skip_serializing_if = "Option::is_none")]
     pub features: Option<Vec<String>>,
+    /// entry == "write_file": the node itself overwrites `path` with these bytes between two calls
+    #[serde(default, skip_serializing_if = "Option::is_none")]
+    pub write_hex: Option<String>,
 }
 fn is_false(b: &bool) -> bool {
     !*b
@@ -71,6 +74,9 @@ pub struct NodeSpec {
     pub clock: Option<i64>,
     #[serde(default, skip_serializing_if = "Option::is_none")]
     pub pid: Option<i64>,
+    /// one `Configuration` value per distinct setting, reused by all calls of this node
+    #[serde(default, skip_serializing_if = "is_false")]
+    pub reuse_config: bool,
 }
 
 #[derive(Clone, Debug)]
@@ -269,6 +275,7 @@ pub fn run_node(w: &WorldDir, bins: &Bins, spec: &NodeSpec) -> NodeRun {
             let job = serde_json::json!({
                 "result": w.res().to_string_lossy(),
                 "canary": spec.canary,
+                "reuse_config": spec.reuse_config,
                 "leak": spec.leak,
                 "calls": calls,
             });
